@@ -141,6 +141,36 @@ inline std::string describe_death(const CaseResult &r) {
   if (r.exitcode == 77) return "AddressSanitizer report";
   return "exit " + std::to_string(r.exitcode);
 }
+// one case alone in a fresh child (confirmation run): true iff it ended by itself (result or genuine death in `cr`)
+inline bool run_alone(long i, const std::function<std::string(long)> &fn, int alarm_s, CaseResult &cr) {
+  int p[2];
+  if (pipe(p) != 0) { perror("pipe"); _exit(95); }
+  fflush(stdout);
+  pid_t pid = fork();
+  if (pid == 0) {
+    close(p[0]);
+    alarm(alarm_s);
+    std::string o = fn(i);
+    o += "\n";
+    size_t off = 0;
+    while (off < o.size()) { ssize_t k = write(p[1], o.data() + off, o.size() - off); if (k <= 0) break; off += k; }
+    _exit(0);
+  }
+  close(p[1]);
+  std::string got;
+  char buf[4096];
+  ssize_t k;
+  while ((k = read(p[0], buf, sizeof buf)) > 0) got.append(buf, (size_t)k);
+  close(p[0]);
+  int st = 0;
+  waitpid(pid, &st, 0);
+  cr = CaseResult();
+  if (WIFEXITED(st) && WEXITSTATUS(st) == 0 && !got.empty() && got.back() == '\n') { got.pop_back(); cr.obs = got; return true; }
+  cr.died = 1;
+  if (WIFSIGNALED(st)) { cr.sig = WTERMSIG(st); cr.timeout = (cr.sig == SIGALRM); }
+  else cr.exitcode = WEXITSTATUS(st);
+  return !(cr.sig == SIGALRM || cr.sig == SIGKILL || cr.sig == SIGTERM);
+}
 inline void run_batch(long n, const std::function<std::string(long)> &fn, const std::function<void(long, const CaseResult &)> &sink,
                       int per_case_alarm_s = 20, long max_timeouts = -1) {
   long next = 0, timeouts = 0;
@@ -191,8 +221,17 @@ inline void run_batch(long n, const std::function<std::string(long)> &fn, const 
     (void)begun;
     CaseResult cr;
     cr.died = 1;
-    if (WIFSIGNALED(st)) { cr.sig = WTERMSIG(st); cr.timeout = (cr.sig == SIGALRM); if (cr.timeout) timeouts++; }
+    if (WIFSIGNALED(st)) { cr.sig = WTERMSIG(st); cr.timeout = (cr.sig == SIGALRM); }
     else cr.exitcode = WEXITSTATUS(st);
+    if (cr.sig == SIGALRM || cr.sig == SIGKILL || cr.sig == SIGTERM) {
+      // the wall-clock alarm, or a kill from outside (OOM killer, a supervisor): nothing the code under test did is proven yet.
+      // The case is deterministic, so it is run again alone with a much longer limit; only a hang that repeats is reported.
+      CaseResult again;
+      bool settled = false;
+      for (int attempt = 0; attempt < 2 && !settled; attempt++) settled = run_alone(k, fn, per_case_alarm_s * (attempt ? 20 : 6), again);
+      if (settled) cr = again;
+      else { cr = again; timeouts++; }
+    }
     sink(k, cr);
     next = k + 1;
   }
